@@ -156,10 +156,10 @@ def oarray(a):
     return out
 
 
-def eval_ops(t, reader, sided=None):
+def eval_ops(t, reader):
     """the numpy meaning of the backend operations (what `_FunctionArrayOps` promises), exact"""
     k = t[0]
-    ev = lambda x: eval_ops(x, reader, sided)
+    ev = lambda x: eval_ops(x, reader)
     if k == 'i': return scalar(Fraction(t[1]))
     if k == 'f':
         if 'e' in t[1] or '.' in t[1] or 'inf' in t[1]: return scalar(Fraction(float(t[1])))
@@ -174,7 +174,8 @@ def eval_ops(t, reader, sided=None):
         for i in itertools.product(*map(range, d.shape[:-1])): out[i] = sum(d[i], Fraction(0))
         return out
     if k == 's': return ev(t[1])
-    if k in ('m', 'j'): return sided(k, t[1])
+    if k == 'j': return oarray(eval_ops(t[1], reader.flipped()) - ev(t[1]))
+    if k == 'm': return oarray((ev(t[1]) + eval_ops(t[1], reader.flipped())) * Fraction(1, 2))
     if k == 'add':
         tot = None
         for neg, a in t[1]:
@@ -188,9 +189,8 @@ def eval_ops(t, reader, sided=None):
         return tot
     if k == 'div':
         a, b = ev(t[1]), ev(t[2])
-        if b[()] == 0: raise G.Degenerate('division by zero')
         out = numpy.empty(a.shape, dtype=object)
-        for i in itertools.product(*map(range, a.shape)): out[i] = Fraction(a[i]) / b[()]
+        for i in itertools.product(*map(range, a.shape)): out[i] = G._div(a[i], b[()])
         return out
     if k == 'pow':
         a, b = ev(t[1]), ev(t[2])
@@ -221,31 +221,84 @@ def magnitude_ok(arr):
 
 # ------------------------------------------------------------------------------------------ real namespaces
 
-def make_ns_v2(v2, ctx):
-    ns = v2.Namespace()
-    for name, arr in ctx.vars.items():
-        setattr(ns, name, numpy.array(arr, dtype=float))
-    ns.f = lambda u: 2 * u + 1
-    ns.h = lambda u: u * u
-    ns.g = lambda u: u[..., numpy.newaxis] * numpy.array([1., 10.]) + numpy.array([0., 1.])
-    ns.w = lambda u: u[..., numpy.newaxis] * numpy.array([2., 3., 4.]) - 1
-    ns.G = lambda u: u[..., numpy.newaxis, numpy.newaxis] * numpy.array([1., 2.])[:, numpy.newaxis] + numpy.array([0., 1., 2.])
-    return ns
-
+REAL_FNS = dict(
+    f=lambda u: 2 * u + 1,
+    h=lambda u: u * u,
+    g=lambda u: u[..., numpy.newaxis] * numpy.array([1., 10.]) + numpy.array([0., 1.]),
+    w=lambda u: u[..., numpy.newaxis] * numpy.array([2., 3., 4.]) - 1,
+    G=lambda u: u[..., numpy.newaxis, numpy.newaxis] * numpy.array([1., 2.])[:, numpy.newaxis] + numpy.array([0., 1., 2.]))
 
 V2_BUILTIN_FNS = ['opposite', 'sin', 'cos', 'tan', 'sinh', 'cosh', 'tanh', 'arcsin', 'arccos', 'arctan', 'arctanh', 'exp', 'abs', 'ln', 'log',
                   'log2', 'log10', 'sqrt', 'sign', 'conj', 'real', 'imag']
 
 
-def real_eval_v2(v2, ns, s, how):
-    """('value', array, indices) | ('syntax', msg) | ('attr', msg) | ('exc', type, msg)"""
+class ConstWorld:
+    """plain constant arrays in a v2 namespace, evaluated with `.eval()`"""
+    label = 'const'
+
+    def __init__(self, v2, ctx):
+        self.v2, self.ctx = v2, ctx
+        self.reader = G.Reader(ctx)
+        self.ns = v2.Namespace()
+        for name, arr in ctx.vars.items():
+            setattr(self.ns, name, numpy.array(arr, dtype=float))
+        for k, f in REAL_FNS.items(): setattr(self.ns, k, f)
+        self.var_shapes = {k: v.shape for k, v in ctx.vars.items()}
+        self.fn_shapes = {k: v[0] for k, v in ctx.fns.items()}
+        for b in V2_BUILTIN_FNS: self.fn_shapes[b] = ()
+
+    def value(self, arr):
+        return numpy.asarray(arr.eval())
+
+
+class SidedWorld:
+    """fields on the two-element mesh, evaluated at the interface point from side 0 (jump, mean, gradient, normal)"""
+    label = 'mesh'
+
+    def __init__(self, v2, sctx):
+        from nutils import mesh, function
+        self.v2, self.ctx = v2, sctx
+        topo, geom = mesh.rectilinear([2, 1])
+        ns = v2.Namespace(); ns.x = geom
+        ns.define_for('x', gradient='∇', normal='n')
+        disc = topo.basis('discont', degree=0)
+        x0, x1 = geom
+        F = lambda a: numpy.array(a, dtype=float)
+        for name, (c0, c1, c2, c3, j0, j1) in sctx.coef.items():
+            val = F(c0) + F(c1) * x0 + F(c2) * x1 + F(j0) * disc[0] + F(j1) * disc[1]
+            if any(c3.flat): val = val + F(c3) * (x0 * x1)
+            setattr(ns, name, val)
+        for k, f in REAL_FNS.items(): setattr(ns, k, f)
+        self.ns = ns
+        self.smpl = topo.interfaces.sample('gauss', 1)
+        eid = disc @ numpy.arange(2.)
+        e0, e1 = self.smpl.eval([eid, function.opposite(eid)])
+        sctx.elem_of_side = (int(round(float(e0[0]))), int(round(float(e1[0]))))
+        sctx.normal = [Fraction(int(round(float(v)))) for v in self.smpl.eval(ns.n)[0]]
+        self.reader = G.SidedReader(sctx, 0)
+        self.var_shapes = {k: v.shape for k, v in sctx.vars.items()}
+        self.var_shapes['x'] = (2,); self.var_shapes['n'] = (2,)
+        self.fn_shapes = {k: v[0] for k, v in sctx.fns.items()}
+        self.fn_shapes['∇'] = (2,)
+        for b in V2_BUILTIN_FNS: self.fn_shapes[b] = ()
+
+    def value(self, arr):
+        return numpy.asarray(self.smpl.eval(arr))[0]
+
+
+def real_eval_v2(world, s, how, target):
+    """('value', array) | ('syntax', msg) | ('attr', msg) | ('exc', type, msg)"""
+    v2, ns = world.v2, world.ns
     try:
         if how == '@':
             arr = s @ ns
         else:
-            setattr(ns, 'zz_' + how if how else 'zz', s)
-            arr = ns.zz
-        val = arr.eval()
+            try:
+                setattr(ns, 'zz_' + target if target else 'zz', s)
+                arr = ns.zz
+            finally:
+                if 'zz' in vars(ns): object.__delattr__(ns, 'zz')
+        val = world.value(arr)
     except v2.ExpressionSyntaxError as e:
         return ('syntax', str(e).split('\n')[0])
     except AttributeError as e:
@@ -254,31 +307,131 @@ def real_eval_v2(v2, ns, s, how):
         return ('exc', 'AttributeError', str(e)[:80])
     except Exception as e:
         return ('exc', type(e).__name__, str(e)[:80])
-    return ('value', numpy.asarray(val))
+    return ('value', val)
+
+
+def gen_sem_cases(rng, gen, ctx, corpus, n_ast, n_edit, n_viol):
+    cases = [('corpus', None, s) for s in corpus]
+    for k in range(n_ast):
+        depth = rng.choice([0, 1, 2, 2, 3, 3, 4, 5, 6])
+        nfree = rng.choice([0, 0, 1, 1, 2, 3])
+        free = [(l, rng.choice([2, 2, 3])) for l in rng.sample(G.LETTERS, nfree)]
+        ast, _ = gen.top(free, depth)
+        s = G.pr(ast, G.Style(rng if k % 2 else None))
+        cases.append(('ast', ast, s))
+        for _ in range(n_viol):
+            kind, bad = G.violate(ast, rng, ctx)
+            if kind != 'none': cases.append(('violate-' + kind, bad, G.pr(bad)))
+        for _ in range(n_edit):
+            kind, e = G.random_edit(s, ALPHABET, rng)
+            cases.append(('edit-' + kind, None, e))
+    return cases
+
+
+UNSAFE_OPS = tuple('c(%s,' % b for b in V2_BUILTIN_FNS if b not in ('abs', 'sign'))
+
+
+def semantic_stream(c, world, cases, answers, rng):
+    """returns (findings, pending) — failing inputs decided by the reading, and model/code disagreements"""
+    findings = 0; pending = []
+    reader = world.reader; label = world.label
+    for (tag, ast, s), a in zip(cases, answers):
+        a = canon_model(a)
+        f = a.split('|')
+        how = '@' if rng.random() < .6 else 'set'
+        c.case((label, s), nontrivial=bool(s.strip()))
+        # --- the specification: the reading of the generating AST
+        spec = None
+        if ast is not None:
+            try:
+                v = reader.read(ast)
+                spec = ('value', v) if magnitude_ok(v.arr) else ('degenerate',)
+            except G.Reject as e:
+                spec = ('reject', str(e))
+            except (G.Degenerate, ZeroDivisionError, OverflowError):
+                spec = ('degenerate',)
+            c.count('%s-spec:%s' % (label, spec[0]))
+        # --- the exact value of the operation tree predicted by the Lean model
+        model_val = None
+        if f[0] == 'ok':
+            try:
+                if any(u in f[1] for u in UNSAFE_OPS) or 'inf' in f[1] or 'nan' in f[1]:
+                    model_val = ('skip',)
+                else:
+                    arr = eval_ops(parse_ops(f[1]), reader)
+                    model_val = ('value', arr) if magnitude_ok(arr) else ('skip',)
+            except (G.Degenerate, G.Reject, ZeroDivisionError, OverflowError):
+                model_val = ('skip',)
+        # --- the real code
+        if how == 'set':
+            letters = f[3] if f[0] == 'ok' else (''.join(spec[1].labels) if spec and spec[0] == 'value' else rng.choice(['', 'i', 'ij']))
+            target = ''.join(sorted(letters, key=lambda ch: rng.random()))
+            if rng.random() < .08: target = target[:-1] if target else 'i'
+        else:
+            target = ''.join(sorted(f[3])) if f[0] == 'ok' else (''.join(sorted(spec[1].labels)) if spec and spec[0] == 'value' else '')
+        r = real_eval_v2(world, s, how, target)
+        c.count('%s:%s:%s' % (label, tag.split('-')[0], how)); c.count('%s-real:%s' % (label, r[0]))
+        replay = dict(stream='v2-namespace-' + label, string=s, how=how, target=target, real=[str(x)[:300] for x in r], model=a, tag=tag, ast=repr(ast) if ast else None)
+        # property oracle 1: the reading of the AST
+        if spec is not None and spec[0] == 'value':
+            v = spec[1]
+            if how == 'set' and (set(target) != set(v.labels) or len(target) != len(v.labels)):
+                if r[0] == 'value':
+                    findings += 1
+                    c.failing_input('v2-setattr-index-mismatch-accepted', 'ns.x_<indices> = expr accepts indices that differ from those of the expression', replay)
+                    continue
+            elif r[0] == 'value':
+                want = G.aligned(v, target)
+                if not close(r[1], want):
+                    findings += 1
+                    c.failing_input('v2-eval-differs-from-reading', 'the v2 namespace evaluates a grammar-conforming string to something else than its index-notation reading', dict(replay, want=repr(want.tolist())))
+                    continue
+                c.traces += 1; c.count(label + '-reading-value-ok')
+            elif r[0] in ('syntax', 'attr'):
+                findings += 1
+                c.failing_input('v2-valid-string-rejected', 'the v2 namespace rejects a string that follows the documented grammar (%s)' % r[1][:60], replay)
+                continue
+        if spec is not None and spec[0] == 'reject':
+            if r[0] == 'value':
+                findings += 1
+                c.failing_input('v2-rule-violation-evaluated', 'a string violating a documented rule (%s) is evaluated silently' % spec[1], replay)
+                continue
+            if r[0] in ('syntax',): c.count(label + '-violation-rejected')
+        # property oracle 2: rejection must be the module's ExpressionSyntaxError
+        if r[0] == 'exc' and r[1] not in ('ZeroDivisionError', 'FloatingPointError'):
+            findings += 1
+            what = 'call-of-variable' if r[1] == 'TypeError' and 'not callable' in r[2] else r[1]
+            c.failing_input('v2-wrong-exception:' + what, 'a string is rejected with %s instead of ExpressionSyntaxError' % r[1], replay)
+            continue
+        # correspondence with the model (accept / reject, message, value of the predicted op tree)
+        if f[0] == 'err':
+            if r[0] != 'syntax' or r[1] != f[1]:
+                pending.append(('corr:v2-namespace-' + label, 'model predicts ExpressionSyntaxError %r, real outcome %r' % (f[1], r[:2]), replay))
+        elif f[0] == 'ok':
+            if how == 'set' and (set(target) != set(f[3]) or len(target) != len(f[3])):
+                if r[0] != 'attr':
+                    pending.append(('corr:v2-namespace-' + label, 'attribute indices differ from expression indices but no AttributeError', replay))
+            elif r[0] != 'value':
+                if r[0] != 'exc':
+                    pending.append(('corr:v2-namespace-' + label, 'model accepts, real code rejects', replay))
+            elif model_val is not None and model_val[0] == 'value':
+                want = model_val[1].transpose([f[3].index(l) for l in target])
+                if not close(r[1], want):
+                    pending.append(('corr:v2-namespace-' + label, 'real value differs from the exact value of the predicted op tree', dict(replay, want=repr(want.tolist()))))
+                else:
+                    c.count(label + '-optree-value-ok')
+        else:
+            raise Infra('unexpected model answer ' + a)
+    return findings, pending
 
 
 # ------------------------------------------------------------------------------------------ the check
 
-def make_sem_cases(c, rng, ctx, corpus, fn_shapes, quick):
-    gen2 = G.Gen(rng, ctx, sides=False, gradient=False)
-    n_sem = 100 if quick else 3000
-    n_sem_edit = 8 if quick else 25
-    sem_cases = []   # (tag, ast or None, string)
-    for s in corpus:
-        sem_cases.append(('corpus', None, s))
-    for k in range(n_sem):
-        depth = rng.choice([0, 1, 2, 2, 3, 3, 4, 5, 6])
-        nfree = rng.choice([0, 0, 1, 1, 2, 3])
-        free = [(l, rng.choice([2, 2, 3])) for l in rng.sample(G.LETTERS, nfree)]
-        ast, _ = gen2.expr(free, depth, set())
-        s = G.pr(ast, G.Style(rng if k % 2 else None))
-        sem_cases.append(('ast', ast, s))
-        for _ in range(n_sem_edit):
-            kind, e = G.random_edit(s, ALPHABET, rng)
-            sem_cases.append(('edit-' + kind, None, e))
-    sem_fns = dict(fn_shapes); del sem_fns['∇']
-    for b in V2_BUILTIN_FNS: sem_fns[b] = ()
-    return sem_cases, ctx_field(sem_fns)
+CORPUS = ['', ' ', '-', '- a_i', '-  - s', 'a_i ^2', 's^ 2', 's^-2', 's^1_0', '1_0 s', '1e1 s', 's^(1 / 2)', 'a) + (b', 'A_ij + A_ji', 'B_ij + B_ji',
+          '(a_i b_i) a_i', '(a_i b_i) (a_i b_i)', 'a_i / A_ii', 'g_i(a_i)', 'G_ij(a_i)', 'g_2(s)', 'v223_i1j', 'T_iji', 'T_iii', 'a_i + s', 's + a_i',
+          'a(s)', 'f_i(s)', '<s>', 'f<s>', '(s]', '(s', 's)', '(s)s', '2 2 s', 's 2', '.', '1.', '.5e', '1e+2 s', '0x1 s', 's^^2', 's^2^2', 's / s / s',
+          '-2^2', '-s^2 + s', 'a_i b_j / s r', 'B_ij c_j a_i', 'v232_iji', 'A_ij + a_j a_i', 'a_i - b_i + a_i', 'v322_kji + v223_ijk', 'f(a_i + b_i)',
+          'g_j(a_i) + A_ij', 'G_0j(s)', '2 a_0 / 4', 's^(s - r)', '(-s)', '((s))', '[s]', '{s}', 'abs(-s)', '∇_i(s)', 'n_i n_i', '∇_i(x_i)']
 
 
 def run(c):
@@ -289,46 +442,47 @@ def run(c):
     quick = c.tier == 'quick'
     c.rule = ('strings: random source ASTs of the documented v2 grammar (depth <= 6; variables with letter / numeral indices, traces, '
               'numbers incl. decimals, juxtaposition products, fractions, powers with int / scoped exponents, parentheses, jump, mean, '
-              'function calls with 0-2 generated axes, leading minus, add / subtract) printed with random legal whitespace, plus single-'
-              'character edits (delete / insert / replace over a %d-symbol alphabet / swap) of them, plus raw random strings; every parser '
-              'entry point.  A case is non-trivial when the string is non-empty; distinct by (entry, string).' % len(ALPHABET))
+              'function calls with 0-2 generated axes, gradient, normal, leading minus, add / subtract) printed with random legal whitespace; '
+              'single-character edits (delete / insert / replace over a %d-symbol alphabet / swap) of them; AST-level rule violations '
+              '(index renamed / dropped / added, variable swapped, factor duplicated, number inside a term, vector denominator / exponent, '
+              'unknown names); raw random strings; every parser entry point.  A case is non-trivial when the string is non-empty; '
+              'distinct by (stream, entry, string).' % len(ALPHABET))
     c.assumptions += [
-        'strings are over a fixed alphabet (ASCII letters/digits/operators/brackets, blanks, "∇", "μ"); python int()/float() literal syntax is '
-        'modelled for these characters only (no unicode digits, no other whitespace than blanks)',
-        'the backend context of the structural stream is a fixed table of variables and functions (names, shapes); `_FunctionArrayOps` is '
-        'tied separately by the semantic streams on integer data',
+        'strings are over a fixed alphabet (ASCII letters/digits/operators/brackets, blanks, a few non-ASCII letters); python int()/float() '
+        'literal syntax is modelled for these characters only (no unicode digits, no whitespace other than blanks)',
+        'the backend context of the structural stream is a fixed table of variables and functions (names, shapes); `_FunctionArrayOps` and '
+        'the Namespace glue are tied separately by the semantic streams',
         'semantic comparisons use a relative tolerance of 1e-9 on float64 results against exact rational recomputation',
-        'expression_v1 is not ported to Lean: it is tied by evaluation against the AST reading only (kind exploration)']
+        'leaf data of the mesh world (values of fields on either side of the interface, the normal) is evaluated by nutils itself; jump, mean '
+        'and the gradient of compound expressions are recomputed exactly (first-order jets)',
+        'expression_v1 is not ported to Lean: it is tied by evaluation against the AST reading only (kind exploration)',
+        'expression_v1 rejects removed legacy syntax (`n:x_i`, `u_,x_i`, `[f]_i`, `dx_i:u`, `<a_i, b_i>_i`) with the builtin SyntaxError and a "no longer supported" message: counted as a rejection']
     broken = c.build_and_audit()
     c.log('lean build + audit done')
     rng = c.rng
-    ctx = G.Context(rng)
-    var_shapes = {k: v.shape for k, v in ctx.vars.items()}
-    fn_shapes = {k: v[0] for k, v in ctx.fns.items()}
-    fn_shapes['∇'] = (2,)
-    var_shapes['n'] = (2,); var_shapes['x'] = (2,)
+    sctx = G.SidedContext(rng)
+    ctx = sctx
+    const = ConstWorld(v2, ctx)
+    sided = SidedWorld(v2, sctx)
+    var_shapes = dict(sided.var_shapes)
+    fn_shapes = {k: v for k, v in sided.fn_shapes.items() if k not in V2_BUILTIN_FNS}
     vars_f, fns_f = ctx_field(var_shapes), ctx_field(fn_shapes)
     rec = make_recorder(v2, var_shapes, fn_shapes)
     gen = G.Gen(rng, ctx, sides=True, gradient=True)
 
     # ---------------------------------------------------------------- stream 1: structural correspondence of the parser
-    n_ast = 300 if quick else 6000
-    n_edit = 50 if quick else 70
+    n_ast = 250 if quick else 6000
+    n_edit = 40 if quick else 70
     n_full = 3 if quick else 40
-    n_raw = 2000 if quick else 40000
+    n_raw = 1500 if quick else 40000
     asts = []
     for k in range(n_ast):
         depth = rng.choice([0, 1, 2, 2, 3, 3, 4, 5, 6])
         nfree = rng.choice([0, 0, 1, 1, 2, 3])
         free = [(l, rng.choice([2, 2, 3])) for l in rng.sample(G.LETTERS, nfree)]
-        ast, _ = gen.expr(free, depth, set())
+        ast, _ = gen.top(free, depth)
         asts.append(ast)
-    cases = []   # (tag, entry, string)
-    corpus = ['', ' ', '-', '- a_i', '-  - s', 'a_i ^2', 's^ 2', 's^-2', 's^1_0', '1_0 s', '1e1 s', 's^(1 / 2)', 'a) + (b', 'A_ij + A_ji', 'B_ij + B_ji',
-              '(a_i b_i) a_i', '(a_i b_i) (a_i b_i)', 'a_i / A_ii', 'g_i(a_i)', 'G_ij(a_i)', 'g_2(s)', 'v223_i1j', 'T_iji', 'T_iii', 'a_i + s', 's + a_i',
-              'a(s)', 'f_i(s)', '<s>', 'f<s>', '(s]', '(s', 's)', '(s)s', '2 2 s', 's 2', '.', '1.', '.5e', '1e+2 s', '0x1 s', 's^^2', 's^2^2', 's / s / s']
-    for s in corpus:
-        cases.append(('corpus', 'expr', s))
+    cases = [('corpus', 'expr', s) for s in CORPUS]
     base_strings = []
     for k, ast in enumerate(asts):
         s = G.pr(ast, G.Style(rng if k % 3 else None))
@@ -336,7 +490,9 @@ def run(c):
         cases.append(('ast', 'expr', s))
         for tag in G.constructs(ast): c.count('construct:' + tag)
         c.count('ast-depth:%d' % G.depth_of(ast))
-        if len(s) <= 60 or not quick:
+        kind, bad = G.violate(ast, rng, ctx)
+        if kind != 'none': cases.append(('violate', 'expr', G.pr(bad)))
+        if len(s) <= 70 or not quick:
             for _ in range(n_edit):
                 kind, e = G.random_edit(s, ALPHABET, rng)
                 cases.append(('edit-' + kind, 'expr', e))
@@ -363,18 +519,26 @@ def run(c):
         if (entry, s) in seen: continue
         seen.add((entry, s)); uniq.append((tag, entry, s))
     cases = uniq
-    c.log('stream 1: %d strings (%d ASTs)' % (len(cases), len(asts)))
-    sem_cases, sem_fns_f = make_sem_cases(c, rng, ctx, corpus, fn_shapes, quick)
-    allans = c.model([request(entry, vars_f, fns_f, s) for _, entry, s in cases] + [request('expr', vars_f, sem_fns_f, s) for _, _, s in sem_cases])
-    ans, ans2 = allans[:len(cases)], allans[len(cases):]
-    c.log('model answered (%d requests)' % len(allans))
-    model_of = {}
+    # ---------------------------------------------------------------- streams 2, 3: cases
+    gen_const = G.Gen(rng, ctx, sides=False, gradient=False)
+    gen_sided = G.Gen(rng, ctx, sides=True, gradient=True)
+    sem_const = gen_sem_cases(rng, gen_const, ctx, CORPUS, 60 if quick else 2500, 5 if quick else 20, 2 if quick else 3)
+    sem_sided = gen_sem_cases(rng, gen_sided, ctx, CORPUS[-12:], 25 if quick else 1200, 2 if quick else 10, 1 if quick else 2)
+    reqs = [request(entry, vars_f, fns_f, s) for _, entry, s in cases]
+    reqs += [request('expr', ctx_field(const.var_shapes), ctx_field(const.fn_shapes), s) for _, _, s in sem_const]
+    reqs += [request('expr', ctx_field(sided.var_shapes), ctx_field(sided.fn_shapes), s) for _, _, s in sem_sided]
+    c.log('requests: %d parser strings (%d ASTs), %d + %d namespace strings' % (len(cases), len(asts), len(sem_const), len(sem_sided)))
+    allans = c.model(reqs)
+    ans = allans[:len(cases)]; ans_const = allans[len(cases):len(cases) + len(sem_const)]; ans_sided = allans[len(cases) + len(sem_const):]
+    c.log('model answered')
+    bad = [a for a in allans if a.startswith('bad-request')]
+    if bad: raise Infra('driver rejected a request')
+
     nbad = 0; mismatches = []
     for (tag, entry, s), a in zip(cases, ans):
         a = canon_model(a)
-        model_of[entry, s] = a
         r = real_parse(v2, rec, entry, s)
-        c.case((entry, s), nontrivial=bool(s))
+        c.case(('parser', entry, s), nontrivial=bool(s))
         c.count('s1:' + tag.split('-')[0]); c.count('s1-outcome:' + (r.split('|')[1] if r.startswith('err') else r.split('|')[0]))
         if len(c.samples) < 4 and tag == 'ast' and len(s) < 50: c.sample(dict(stream='parser', string=s, real=r, model=a))
         if r != a:
@@ -383,105 +547,141 @@ def run(c):
         else:
             c.traces += 1
     c.obligation('corr:v2-parser-optree-and-errors', nbad == 0, 'correspondence', '%d strings, %d mismatches' % (len(cases), nbad))
+    c.log('stream 1 (parser vs Lean port): %d strings, %d mismatches' % (len(cases), nbad))
 
-    c.log('stream 1: real parser done, %d mismatches' % nbad)
-    # ---------------------------------------------------------------- stream 2: semantics of the real v2 namespace
-    reader = G.Reader(ctx)
-    ns = make_ns_v2(v2, ctx)
-    c.log('stream 2: %d strings, model answered' % len(sem_cases))
-    sem_bad = 0; sem_findings = 0
-    for (tag, ast, s), a in zip(sem_cases, ans2):
-        a = canon_model(a)
-        how = '@' if rng.random() < .6 else 'set'
-        f = a.split('|')
-        c.case(('sem', s), nontrivial=bool(s.strip()))
-        # --- what the specification says
-        spec = None
-        if ast is not None:
+    f2, p2 = semantic_stream(c, const, sem_const, ans_const, rng)
+    c.log('stream 2 (v2 namespace, constants): %d strings, %d failing inputs, %d model disagreements' % (len(sem_const), f2, len(p2)))
+    f3, p3 = semantic_stream(c, sided, sem_sided, ans_sided, rng)
+    c.log('stream 3 (v2 namespace, mesh): %d strings, %d failing inputs, %d model disagreements' % (len(sem_sided), f3, len(p3)))
+    c.obligation('sem:v2-namespace-vs-reading', f2 + f3 == 0, 'correspondence', '%d strings' % (len(sem_const) + len(sem_sided)))
+    c.obligation('corr:v2-namespace-vs-model', not (p2 or p3), 'correspondence', '%d strings, %d disagreements' % (len(sem_const) + len(sem_sided), len(p2) + len(p3)))
+
+    f4 = v1_stream(c, rng, sctx, quick)
+
+    # ---------------------------------------------------------------- verdicts for model / code disagreements
+    found = f2 + f3      # failing inputs of the v2 code explain v2 model / code disagreements (v1 is tied separately)
+    if nbad:
+        c.extra['parser_mismatches'] = mismatches
+    if not found:
+        if nbad:
+            c.broken_no_input('corr:v2-parser', 'real parser and Lean port disagree on %d strings, e.g. %r' % (nbad, mismatches[0]), dict(mismatches=mismatches))
+        for name, what, replay in (p2 + p3)[:3]:
+            c.broken_no_input(name, what, replay)
+    for b in broken:
+        c.broken_no_input('proof', b, dict(detail=b))
+
+
+V1_FNS = dict(
+    f=lambda u: 2 * u + 1,
+    h=lambda u: u * u,
+    g=lambda u, generates=1: u[..., numpy.newaxis] * numpy.array([1., 10.]) + numpy.array([0., 1.]))
+
+V1_ALPHABET = list('abcsABTfgnij012 _+-/^()[]{}<>.e,;:?=$δ')
+
+
+class V1World:
+    """expression_v1.Namespace on the same two-element mesh; default geometry x, builtin normal n and gradient _,i"""
+
+    def __init__(self, v1, sctx):
+        from nutils import mesh
+        self.v1, self.ctx = v1, sctx
+        topo, geom = mesh.rectilinear([2, 1])
+        ns = v1.Namespace(functions=V1_FNS)
+        ns.x = geom
+        disc = topo.basis('discont', degree=0)
+        x0, x1 = geom
+        F = lambda a: numpy.array(a, dtype=float)
+        for name, (c0, c1, c2, c3, j0, j1) in sctx.coef.items():
+            if name in ('n', 'x'): continue
+            val = F(c0) + F(c1) * x0 + F(c2) * x1 + F(j0) * disc[0] + F(j1) * disc[1]
+            if any(c3.flat): val = val + F(c3) * (x0 * x1)
+            setattr(ns, name, val)
+        self.ns = ns
+        self.smpl = topo.interfaces.sample('gauss', 1)
+        self.reader = G.SidedReader(sctx, 0)
+
+    def evaluate(self, s, target, how):
+        v1 = self.v1
+        try:
+            if how == 'set':
+                try:
+                    setattr(self.ns, 'zz_' + target if target else 'zz', s)
+                    arr = self.ns.zz
+                finally:
+                    if 'zz' in self.ns._attributes: delattr(self.ns, 'zz')
+            else:
+                arr = getattr(self.ns, 'eval_' + target)(s)
+            val = numpy.asarray(self.smpl.eval(arr))[0]
+        except v1.ExpressionSyntaxError as e:
+            return ('syntax', str(e).split('\n')[0])
+        except SyntaxError as e:
+            if 'no longer supported' in str(e): return ('syntax', 'legacy syntax: ' + str(e)[:60])   # deliberate rejection of removed v1 syntax
+            return ('exc', 'SyntaxError', str(e)[:80])
+        except Exception as e:
+            return ('exc', type(e).__name__, str(e)[:80])
+        return ('value', val)
+
+
+def v1_stream(c, rng, sctx, quick):
+    """exploration: the same ASTs printed in v1 syntax, real v1 evaluation against the reading; corruptions must raise
+    expression_v1.ExpressionSyntaxError or evaluate"""
+    import nutils.expression_v1 as v1
+    world = V1World(v1, sctx)
+    gen = G.Gen(rng, sctx, sides=True, gradient=True, v1=True)
+    n_ast = 30 if quick else 2000
+    n_edit = 6 if quick else 30
+    findings = 0; n = 0
+    for k in range(n_ast):
+        depth = rng.choice([0, 1, 2, 2, 3, 3, 4, 5, 6])
+        nfree = rng.choice([0, 0, 1, 1, 2, 3])
+        free = [(l, rng.choice([2, 2, 3])) for l in rng.sample(G.LETTERS, nfree)]
+        ast, _ = gen.top(free, depth)
+        todo = [('ast', ast)]
+        for _ in range(2):
+            kind, bad = G.violate(ast, rng, sctx)
+            if kind != 'none': todo.append(('violate-' + kind, bad))
+        for tag, t in todo:
+            s = G.pr(t, G.Style(rng if k % 2 else None), v1=True)
             try:
-                v = reader.read(ast)
+                v = world.reader.read(t)
                 spec = ('value', v) if magnitude_ok(v.arr) else ('degenerate',)
             except G.Reject as e:
                 spec = ('reject', str(e))
             except (G.Degenerate, ZeroDivisionError, OverflowError):
                 spec = ('degenerate',)
-        model_val = None
-        if f[0] == 'ok':
-            indices = f[3]
-            try:
-                tree = parse_ops(f[1])
-                if any(b + '(' in f[1] or 'c(%s,' % b in f[1] for b in V2_BUILTIN_FNS) or 'inf' in f[1] or 'm(' in f[1] or 'j(' in f[1]:
-                    model_val = ('skip',)
-                else:
-                    arr = eval_ops(tree, reader)
-                    model_val = ('value', arr, indices) if magnitude_ok(arr) else ('skip',)
-            except (G.Degenerate, ZeroDivisionError, OverflowError):
-                model_val = ('skip',)
-        # --- the real code
-        if how == 'set':
-            target = ''.join(sorted(f[3], key=lambda ch: rng.random())) if f[0] == 'ok' else rng.choice(['', 'i', 'ij'])
-            if f[0] == 'ok' and rng.random() < .1: target = target[:-1] if target else 'i'
-            r = real_eval_v2(v2, ns, s, target)
-            if hasattr(ns, 'zz'): object.__delattr__(ns, 'zz')
-        else:
-            target = ''.join(sorted(f[3])) if f[0] == 'ok' else ''
-            r = real_eval_v2(v2, ns, s, '@')
-        c.count('s2:' + tag.split('-')[0] + ':' + how); c.count('s2-real:' + r[0])
-        replay = dict(stream='v2-namespace', string=s, how=how, target=target, real=[str(x)[:200] for x in r], model=a, ast=repr(ast) if ast else None)
-        # property oracle 1: the AST reading
-        if spec is not None and spec[0] == 'value':
-            v = spec[1]
-            if how == 'set' and set(target) != set(v.labels):
-                pass
-            elif r[0] == 'value':
-                want = G.aligned(v, target)
+            letters = ''.join(spec[1].labels) if spec[0] == 'value' else ''.join(l for l, _ in free)
+            target = ''.join(sorted(letters, key=lambda ch: rng.random()))
+            how = rng.choice(['eval', 'eval', 'set'])
+            r = world.evaluate(s, target, how)
+            n += 1
+            c.case(('v1', s), nontrivial=True); c.count('v1:' + tag.split('-')[0]); c.count('v1-spec:' + spec[0]); c.count('v1-real:' + r[0])
+            replay = dict(stream='v1-namespace', string=s, target=target, how=how, real=[str(x)[:300] for x in r], tag=tag, ast=repr(t))
+            if r[0] == 'exc' and r[1] not in ('ZeroDivisionError', 'FloatingPointError'):
+                findings += 1
+                c.failing_input('v1-wrong-exception:' + r[1], 'v1: a string is rejected with %s instead of ExpressionSyntaxError' % r[1], replay)
+            elif spec[0] == 'value' and r[0] == 'value':
+                want = G.aligned(spec[1], target)
                 if not close(r[1], want):
-                    sem_findings += 1
-                    c.failing_input('v2-eval-differs-from-reading', 'the v2 namespace evaluates a grammar-conforming string to something else than its index-notation reading', dict(replay, want=repr(want.tolist())))
-                    continue
-                c.traces += 1; c.count('s2-ast-value-ok')
-            elif r[0] in ('syntax', 'attr'):
-                sem_findings += 1
-                c.failing_input('v2-valid-string-rejected', 'the v2 namespace rejects a string that follows the documented grammar', replay)
-                continue
-        if spec is not None and spec[0] == 'reject' and r[0] == 'value':
-            sem_findings += 1
-            c.failing_input('v2-rule-violation-evaluated', 'a string violating a documented rule (%s) is evaluated silently' % spec[1], replay)
-            continue
-        # property oracle 2: rejection must be the module's ExpressionSyntaxError
-        if r[0] == 'exc' and r[1] not in ('ZeroDivisionError', 'FloatingPointError'):
-            sem_findings += 1
-            what = 'call-of-variable' if r[1] == 'TypeError' and 'not callable' in r[2] else r[1]
-            c.failing_input('v2-wrong-exception:' + what, 'a string is rejected with %s instead of ExpressionSyntaxError' % r[1], replay)
-            continue
-        # correspondence with the model (accept / reject and value of the predicted op tree)
-        if f[0] == 'err':
-            if r[0] != 'syntax' or r[1] != f[1]:
-                sem_bad += 1
-                c.broken_no_input('corr:v2-namespace', 'model predicts ExpressionSyntaxError %r, real outcome %r' % (f[1], r[:2]), replay)
-        else:
-            if how == 'set' and set(target) != set(f[3]):
-                if r[0] != 'attr':
-                    sem_bad += 1
-                    c.broken_no_input('corr:v2-namespace', 'attribute indices differ from expression indices but no AttributeError', replay)
-            elif r[0] != 'value':
-                if r[0] == 'exc': continue
-                sem_bad += 1
-                c.broken_no_input('corr:v2-namespace', 'model accepts, real code rejects', replay)
-            elif model_val is not None and model_val[0] == 'value':
-                want = model_val[1].transpose([f[3].index(l) for l in target])
-                if not close(r[1], want):
-                    sem_bad += 1
-                    c.broken_no_input('corr:v2-namespace', 'real value differs from the exact value of the predicted op tree', dict(replay, want=repr(want.tolist())))
+                    findings += 1
+                    c.failing_input('v1-eval-differs-from-reading', 'the v1 namespace evaluates a grammar-conforming string to something else than its index-notation reading', dict(replay, want=repr(want.tolist())))
                 else:
-                    c.count('s2-optree-value-ok')
-    c.obligation('sem:v2-namespace-vs-reading', sem_findings == 0, 'correspondence', '%d strings' % len(sem_cases))
-    c.obligation('corr:v2-namespace-vs-model', sem_bad == 0, 'correspondence', '%d strings' % len(sem_cases))
-
-    # ---------------------------------------------------------------- verdicts for structural mismatches
-    if nbad:
-        c.extra['parser_mismatches'] = mismatches
-        if sem_findings == 0:
-            c.broken_no_input('corr:v2-parser', 'real parser and Lean port disagree on %d strings, e.g. %r' % (nbad, mismatches[0]), dict(mismatches=mismatches))
-    for b in broken:
-        c.broken_no_input('proof', b, dict(detail=b))
+                    c.traces += 1; c.count('v1-reading-value-ok')
+            elif spec[0] == 'value' and r[0] == 'syntax':
+                findings += 1
+                c.failing_input('v1-valid-string-rejected', 'the v1 namespace rejects a string that follows the documented grammar (%s)' % r[1][:60], replay)
+            elif spec[0] == 'reject' and r[0] == 'value':
+                findings += 1
+                c.failing_input('v1-rule-violation-evaluated', 'v1: a string violating a documented rule (%s) is evaluated silently' % spec[1], replay)
+            if tag == 'ast':
+                for _ in range(n_edit):
+                    kind, e = G.random_edit(s, V1_ALPHABET, rng)
+                    r = world.evaluate(e, target, 'eval')
+                    n += 1
+                    c.case(('v1', e), nontrivial=bool(e.strip())); c.count('v1:edit'); c.count('v1-real:' + r[0])
+                    if r[0] == 'exc' and r[1] not in ('ZeroDivisionError', 'FloatingPointError'):
+                        findings += 1
+                        c.failing_input('v1-wrong-exception:' + r[1], 'v1: a string is rejected with %s instead of ExpressionSyntaxError' % r[1],
+                                        dict(stream='v1-namespace', string=e, target=target, how='eval', real=[str(x)[:300] for x in r], tag='edit-' + kind))
+    c.obligation('sem:v1-namespace-vs-reading', findings == 0, 'exploration', '%d strings' % n)
+    c.log('stream 4 (v1 namespace, exploration): %d strings, %d failing inputs' % (n, findings))
+    return findings
